@@ -1,3 +1,4 @@
+\* exhaustive, every interleaving: two children, <= 4 requests in total (incl. malformed), overlap, safety + liveness
 SPECIFICATION Spec
 CONSTANTS
   Children = {1, 2}
